@@ -8,16 +8,18 @@ Variable H : string -> string.
 Variable enc : list json -> string.
 Variable parse_index : string -> option nat.
 Variable parse_usize : string -> option nat.
+Variable pos : string -> nat.
+Notation add_sd := (T1a.add_sd pos).
 Notation blind := (blind H enc).
 Notation dig_item := (dig_item H enc).
 Notation dig_mem := (dig_mem H enc).
 Notation wf := (wf H enc).
 Notation bitem := (bitem H enc).
 Notation bmem := (bmem H enc).
-Notation mark := (mark H enc parse_index parse_usize).
+Notation mark := (mark H enc parse_index parse_usize pos).
 Notation mk_disc := (mk_disc H enc).
-Notation disclose_here := (disclose_here H enc parse_usize).
-Notation build_disclosure := (build_disclosure H enc parse_index parse_usize).
+Notation disclose_here := (disclose_here H enc parse_usize pos).
+Notation build_disclosure := (build_disclosure H enc parse_index parse_usize pos).
 Notation update_at := (update_at parse_index).
 Notation target := (target parse_index parse_usize).
 
@@ -79,7 +81,7 @@ Proof.
     { pose proof (wf_obj_names _ Hw) as Hn. rewrite Hsplit in Hn. unfold mems'.
       apply Forall_app in Hn as [Hn1 Hn2]. apply Forall_app. split; [assumption|].
       inversion Hn2; subst. constructor; [|assumption]. unfold sd_names_ok. cbn. tauto. }
-    pose proof (bmems_add_sd H enc (dig_mem salt key s) mems' Hs' Hn') as Hadd.
+    pose proof (bmems_add_sd H enc pos (dig_mem salt key s) mems' Hs' Hn') as Hadd.
     rewrite blind_obj.
     destruct (obj_get "_sd" (flat_map bmem mems')) as [[| | | |ds|]|]; try contradiction; rewrite <- Hadd; reflexivity.
 Qed.
